@@ -566,8 +566,8 @@ def c16_h(ctx: Ctx):
 @rule("C16-i")
 def c16_i(ctx: Ctx):
     """Per-job / per-entry loops are independent: nothing read in one iteration was computed in another."""
-    from .lints import per_item_loops, late_binding_in_loops
-    return late_binding_in_loops(ctx, "C16-i", ("signac.import_export",)) + per_item_loops(ctx, "C16-i", [('signac.import_export:_analyze_directory_for_import', 'a directory is imported with the state point / job of the previous one'), ('signac.import_export:_analyze_zipfile_for_import', 'an archive directory is imported with the state point / job of the previous one'), ('signac.import_export:_analyze_tarfile_for_import', 'an archive directory is imported with the state point / job of the previous one'), ('signac.import_export:_crawl_directory_data_space', 'a directory is paired with the state point parsed for the previous one'), ('signac.import_export:_export_jobs', 'a job is exported to the path computed for the previous one')])
+    from .lints import per_item_loops, late_binding_in_loops, one_shot_locals
+    return one_shot_locals(ctx, "C16-i", ("signac.import_export",)) + late_binding_in_loops(ctx, "C16-i", ("signac.import_export",)) + per_item_loops(ctx, "C16-i", [('signac.import_export:_analyze_directory_for_import', 'a directory is imported with the state point / job of the previous one'), ('signac.import_export:_analyze_zipfile_for_import', 'an archive directory is imported with the state point / job of the previous one'), ('signac.import_export:_analyze_tarfile_for_import', 'an archive directory is imported with the state point / job of the previous one'), ('signac.import_export:_crawl_directory_data_space', 'a directory is paired with the state point parsed for the previous one'), ('signac.import_export:_export_jobs', 'a job is exported to the path computed for the previous one')])
 
 
 @rule("C16-j")
